@@ -188,6 +188,8 @@ func (am AppModule) EndBlock(ctx sdk.Context, _ abci.RequestEndBlock) []abci.Val
 		agc.SetValidatorPowers(validatorPowers)
 		// TODO: seal all alive round since validatorSet changed here
 		forceSeal = true
+		// leave a mark for a node that rebuilds the oracle state from the store (see recacheAggregatorContext)
+		am.keeper.SetForceSealBlock(ctx)
 		logger.Info("validator set changed, force seal all active rounds", "height", ctx.BlockHeight())
 	}
 
